@@ -399,6 +399,10 @@ def gen_case(st, tier, flavour):
                 case["faults"].append({"kind": rf.choice(["write-open", "write-open", "mkdir", "short-data", "fail-data", "fail-meta"]),
                                        "nth": rf.choice([1, 1, 2, 3, 5]), "errno": rf.choice(["ENOSPC", "EIO"]),
                                        "after": rf.choice([0, 1, 7, 30])})
+        if case["entry"] == "mirror" and not case["faults"] and rk.random() < 0.15:
+            # the archive directory is used a second time: the host's files and command outputs have become shorter and
+            # the spec set is collected again into the SAME directory (collect() accepts an existing one)
+            case["recollect"] = True
         if rf.random() < 0.45:
             for _ in range(rf.choice([1, 1, 2, 3])):
                 case["corrupt"].append({"spec": rf.randrange(len(specs)),
@@ -1311,6 +1315,19 @@ def run_case(case, flavour):
                     c = collect_phase_real(case, env, Ctx, rps, impls, stats)
                 else:
                     c = collect_phase(case, env, Ctx, rps, impls, stats)
+                    if case.get("recollect") and flavour == "C11" and c.escaped is None:
+                        # second use of the same archive directory, with shorter content everywhere
+                        for rel, spec in sorted(case["files"].items()):
+                            fp = os.path.join(env.tree, rel)
+                            if os.path.isfile(fp) and not os.path.islink(fp) and spec["lines"]:
+                                keep = spec["lines"][:max(1, len(spec["lines"]) // 2)]
+                                keep = keep[:-1] + [keep[-1][:max(1, len(keep[-1]) // 2)]]
+                                with open(fp, "wb") as fh:
+                                    fh.write(("\n".join(keep) + ("\n" if spec["nl"] else "")).encode("utf-8"))
+                        case = dict(case, table=dict((k, dict(v, out=(v["out"].split("\n")[0][:3] + "\n") if v.get("out") else v.get("out")))
+                                                     for k, v in case["table"].items()))
+                        c = collect_phase(case, env, Ctx, rps, impls, stats)
+                        stats["probes"]["archive_directory_used_twice"] = 1
                 if flavour == "C06":
                     viols = oracle_c06(case, env, c, rps, impls, stats)
                     if case.get("relayout") and c.escaped is None:
